@@ -8,6 +8,7 @@ package main
 
 import (
 	"fmt"
+	"strings"
 
 	kvql "github.com/c4pt0r/kvql"
 )
@@ -85,6 +86,20 @@ func c18CaseF(e *emitter, pred string, univ [][2]string, batch bool, B int, faul
 	if !faults || obs.kind == "FULL" {
 		return
 	}
+	// the same plan once more after Init() (a prepared plan run again): what it reads stays pinned
+	for run := 2; run <= 3; run++ {
+		st.log = nil
+		rrp := c18Replay{Query: query, Mode: fmt.Sprintf("batch=%v B=%d, run %d of the same plan after Init()", batch, B, run), Region: obs.region}
+		func() {
+			defer func() { _ = recover() }()
+			if ierr := plan.Init(); ierr == nil {
+				drainPlan(plan, batch, runResult{})
+			}
+		}()
+		c18Reads(&rrp, st.log)
+		e.count("rerun_after_init")
+		e.add(fmt.Sprintf("Case %s %s %s %s %d", term, obs.region, coqStrList(rrp.Gets), coqStrList(rrp.Nexts), rrp.Cursors), rrp, true)
+	}
 	for k := range st.log {
 		fs := newStore(univ)
 		fs.faultAt = k
@@ -104,8 +119,8 @@ func c18CaseF(e *emitter, pred string, univ [][2]string, batch bool, B int, faul
 }
 
 func runC18(c *runCtx) error {
-	lits := []string{"a", "ab", "b", "ba", "c"}
-	univ := c02Universe([]string{"", "a", "ab", "abc", "b", "ba", "c"})
+	lits := []string{"a", "ab", "b", "ba", "c", "a\xff"} // (a prefix whose last byte is 0xff has no successor by incrementing it)
+	univ := c02Universe([]string{"", "a", "ab", "abc", "b", "ba", "c", "a\xff"})
 	keys := make([]string, len(univ))
 	for i, kv := range univ {
 		keys[i] = kv[0]
@@ -113,7 +128,7 @@ func runC18(c *runCtx) error {
 	header := "From Coq Require Import List String.\nFrom KV Require Import Base.Bytes Model.Ast Model.FilterOpt Corr.C18.\nImport ListNotations.\nOpen Scope string_scope.\n" +
 		"Definition univ : list bytes := " + coqStrList(keys) + ".\nDefinition mismatches := mismatches_with univ.\n"
 	e := newEmitter(c.out, "C18", header, 600)
-	e.m.Rule = "canonical key-pinning shapes (key = l, l = key, key in (..), key ^= l, key > >= < <= l and mirrored, key between l1 and l2) over all literal choices from {a, ab, b, ba, c}, alone, AND-ed pairwise and AND-ed with opaque predicates, drained row-at-a-time and in batches (B in {1, 3, 32}); the single shapes once more for every storage call of the run, that call failing; non-trivial = the access path is not a full scan"
+	e.m.Rule = "canonical key-pinning shapes (key = l, l = key, key in (..), key ^= l, key > >= < <= l and mirrored, key between l1 and l2) over all literal choices from {a, ab, b, ba, c}, alone, AND-ed pairwise and AND-ed with opaque predicates, drained row-at-a-time and in batches (B in {1, 3, 32}); the single shapes once more for every storage call of the run, that call failing, and twice more after Init() of the same plan; non-trivial = the access path is not a full scan"
 	var atoms []string
 	for _, l := range lits {
 		atoms = append(atoms, fmt.Sprintf("key = %s", q(l)), fmt.Sprintf("%s = key", q(l)), fmt.Sprintf("key ^= %s", q(l)),
@@ -124,12 +139,33 @@ func runC18(c *runCtx) error {
 		}
 	}
 	atoms = append(atoms, "false", "key < ''", "key <= ''", "key in ('a', 'b', 'c')")
+	// long key lists (65 / 66 / 129 listed keys, stored and not): thresholds on the number of point
+	// reads; on their own and with an opaque conjunct only (not in the pairwise part)
+	var longAtoms []string
+	for _, n := range []int{65, 66, 129} {
+		ks := []string{}
+		for i := 0; len(ks) < n; i++ {
+			if i < len(univ) {
+				ks = append(ks, q(univ[(i*7)%len(univ)][0]))
+			} else {
+				ks = append(ks, q(fmt.Sprintf("zq%03d", i)))
+			}
+		}
+		in := "key in (" + strings.Join(ks, ", ") + ")"
+		longAtoms = append(longAtoms, in, in+" | key = 'abc'", "("+in+") & key in ('a', 'ab', 'nokey')")
+	}
 	opaque := []string{"value = 'x'", "value ^= 'y'", "upper(value) = 'X'", "!(value = 'x')"}
 	modes := []struct {
 		batch bool
 		B     int
 	}{{false, 32}, {true, 1}, {true, 3}, {true, 32}}
 	n := 0
+	for _, a := range longAtoms {
+		for _, m := range modes[1:3] {
+			c18CaseF(e, a, univ, m.batch, m.B, true)
+		}
+		c18Case(e, fmt.Sprintf("(%s) & %s", a, opaque[0]), univ, true, 3)
+	}
 	for _, a := range atoms {
 		for _, m := range modes {
 			c18CaseF(e, a, univ, m.batch, m.B, true)
